@@ -26,7 +26,8 @@ LEVEL_TEXT = (
 LEVEL_NOTE = (
     "Trusted: CPython json. Judged: json.dumps (default encoder, no `default=` hook) succeeds, json.loads gives back an equal object, the same type's "
     "to_knx accepts it, the payload decodes to a value equal (== / structurally, NaN-aware) to the first decoded value. Additionally for enums the "
-    "member itself and its raw integer are fed to to_knx (recorded, judged only for the name form, which is what the statement names)."
+    "member itself and its raw integer are fed to to_knx (recorded, judged only for the name form, which is what the statement names). Each dict is also "
+    "written into one long-lived dict object per class (cleared and refilled in place) and encoded again: it must encode like the fresh dict."
 )
 SHARDS = {"quick": 1, "thorough": 16}
 TIMEOUT = {"quick": 300, "thorough": 3000}
@@ -73,6 +74,9 @@ def _culprit(cls, loaded):
     return "fields"
 
 
+_SHARED = {}  # class -> the one dict object that is refreshed in place and handed to to_knx again and again
+
+
 def _judge(ctx, cls, payload, value, shapes=None):
     ctx.ev()
     own = _own(cls)
@@ -115,6 +119,28 @@ def _judge(ctx, cls, payload, value, shapes=None):
             f"{cls.__name__}: {payload!r} decodes to {value!r}; its JSON form {text} is refused by to_knx with {type(exc).__name__}: {exc}"[:500],
         )
         return
+    # 3b. the same dict OBJECT refreshed in place (what a caller re-using its state dict does) must encode like a fresh one
+    if isinstance(loaded, dict):
+        shared = _SHARED.setdefault(cls, {})
+        if shared:  # written once more with its previous contents, then refreshed in place and written again
+            try:
+                cls.to_knx(shared)
+            except BaseException:  # noqa: BLE001
+                pass
+        shared.clear()
+        shared.update(loaded)
+        try:
+            again = cls.to_knx(shared)
+        except BaseException as exc:  # noqa: BLE001
+            again = f"{type(exc).__name__}"
+        ctx.count("dict_object_reused_in_place")
+        if again != encoded:
+            ctx.violation(
+                f"{G.owner(cls, 'to_knx')}-dict-form-reused-dict-object-encodes-differently-from-fresh-dict",
+                {**witness, "json": text[:400], "fresh": G.describe(encoded), "reused": G.describe(again) if not isinstance(again, str) else again,
+                 "needs_previous_value": True},
+                f"{cls.__name__}: a dict object refreshed in place to {text} encodes to {again!r}, a fresh equal dict to {encoded!r} (stale state from the previous call)"[:500],
+            )
     # 4. decodes to the same value
     status, back = G.try_decode(cls, encoded)
     if status != "ok":
@@ -148,7 +174,7 @@ def run(ctx):
         "arrays beyond), each value through as_dict()/name.lower() -> json.dumps -> json.loads -> to_knx -> from_knx; distinct = (class, form kind, set of "
         "null fields)"
     )
-    ctx.require("dict_roundtrips", "name_roundtrips", "dict_roundtrips_with_null_fields")
+    ctx.require("dict_roundtrips", "name_roundtrips", "dict_roundtrips_with_null_fields", "dict_object_reused_in_place")
     classes = [c for c in G.concrete_dpt_classes() if issubclass(c, (DPTComplex, DPTEnum))]
     ctx.extra["complex_enum_classes"] = len(classes)
     if len(classes) < 40:
@@ -181,6 +207,11 @@ def replay(ctx, witness):
     if status != "ok":
         ctx.inconclusive(f"replay payload not accepted any more: {value!r}")
         return
+    if witness.get("needs_previous_value"):  # stale-state cases need an earlier, different value in the shared dict
+        for other, other_value in G.decode_image(cls, ctx.rng, 50)[:20]:
+            if other != payload:
+                _judge(ctx, cls, other, other_value)
+                break
     _judge(ctx, cls, payload, value)
     ctx.distinct(("replay", cls.__name__))
     ctx.distinct(("replay", repr(payload)))
